@@ -82,6 +82,9 @@ def ctx_table():
     T["object_spread"] = (lambda v: [P(A.ObjectE([A.Single(V(v), True, False)]))], {"object"})
     T["list_pattern_source"] = (lambda v: [A.Declare(A.lst(V("p")), V(v)), P(V("p"))], {"list"})
     T["object_pattern_source"] = (lambda v: [A.Declare(A.ObjectE([A.Single(V("a"), False, False)]), V(v)), P(V("a"))], {"object"})
+    T["list_collect_pattern_source"] = (lambda v: [A.Declare(A.ListE([(V("r"), False)], True), V(v)), P(V("r"))], {"list"})
+    T["object_collect_pattern_source"] = (lambda v: [A.Declare(A.ObjectE([A.Single(V("r"), False, True)]), V(v)), P(V("r"))], {"object"})
+    T["list_collect_param"] = (lambda v: [A.FuncStmt("g", [A.ListE([(V("r"), False)], True)], False, [A.Return(V("r"))]), P(A.call("g", V(v)))], {"list"})
     T["list_pattern_assign"] = (lambda v: [A.Declare(V("p"), A.Int(0)), A.Assign(A.lst(V("p")), V(v)), P(V("p"))], {"list"})
     T["for_iterable"] = (lambda v: [A.For(V("kv"), V(v), [P(V("kv"))])], {"list", "string", "object"})
     T["for_pattern_param"] = (lambda v: [A.FuncStmt("g", [A.lst(V("p"))], False, [A.Return(V("p"))]), P(A.call("g", V(v)))], {"list"})
